@@ -68,7 +68,7 @@ class Check:
     run_timeout = 120
     shrink_timeout = 60
     rule = ('one case = (record length N, spin rate |w|dt in {0.01,0.5,1.5,2.6} rad/tick, sign-flip pattern in {none, alternate, first, tail, random}, '
-            'interior loss mask); every interior loss mask is enumerated for N <= 10 (quick) / 12 (thorough), plus seeded long records with random '
+            'interior loss mask, optionally with torn rows that lose only some components); every interior loss mask is enumerated for N <= 10 (quick) / 12 (thorough), plus seeded long records with random '
             'loss runs; distinct = distinct (N, rate, flip pattern, mask); non-trivial = at least one row lost or flipped')
     assumptions = [
         'partial claim: the free function slerp() on arbitrary endpoint pairs and weight vectors is input generation and is not decided here; only the endpoint pairs and weights that the repair of a lossy record produces',
